@@ -107,11 +107,37 @@ let leak t : string =
   (* non-interference (ConfigReadProofs.noninterference): the model predicts identical, token-free bodies *)
   "LEAK ok " ^ string_of_int n
 
+(* file-configuration case: the same requests on the model, over the configuration tree of the document *)
+let filecfg t : string =
+  let _doc = next t in
+  (match next t with "C" -> () | k -> failwith ("drv_http: expected C, got " ^ k));
+  let cfg = read_tree t in
+  (match next t with "Q" -> () | k -> failwith ("drv_http: expected Q, got " ^ k));
+  let n = next_int t in
+  let b = world_backend [] (zi 0) true in
+  let one () =
+    let meth = bytes_of_ocaml (next t) in
+    let _raw = next t in
+    let path = bytes_of_hex (next t) in
+    match dispatch compiled_table meth path with
+    | None -> "U"
+    | Some (row, ps) ->
+      (match row.br_route with
+       | None -> "NOMODEL"
+       | Some r ->
+         (match snd (handle r ps (zi 2) b cfg) with
+          | Crash -> "CRASH"
+          | Resp (code, ctj, BJson (e, _, _, _)) when ctj -> sz code ^ ":" ^ tf e
+          | Resp (code, _, _) -> sz code ^ ":-")) in
+  let rec go i acc = if i = 0 then List.rev acc else let x = one () in go (i - 1) (x :: acc) in
+  cat ("FILE" :: "ok" :: "K" :: go n [])
+
 let run (line : string) : string =
   let t = toks_of_line line in
   match next t with
   | "req" -> req false t
   | "req0" -> req true t
   | "leak" -> leak t
+  | "filecfg" -> filecfg t
   | "e2e" -> "E2E same"     (* HttpProofs.get_is_readonly + fetch_step_readonly: GETs leave no trace beyond what expiry removes *)
   | k -> failwith ("drv_http: unknown case kind " ^ k)
